@@ -36,7 +36,8 @@ struct TopLevelOutcome {
 
 /// (a) top level: placeDetailed with an observing callback.
 inline TopLevelOutcome runTopLevel(const CircuitSpec &s, const ColoquinteParameters &params,
-                                   const DetailedObserver &ob, bool excludeOrientFlip) {
+                                   const DetailedObserver &ob, bool excludeOrientFlip,
+                                   const Circuit *prepared = nullptr) {
   TopLevelOutcome out;
   Circuit cl = s.build();
   StageResult rl = runStage(cl, kLegalize, params);
@@ -50,7 +51,7 @@ inline TopLevelOutcome runTopLevel(const CircuitSpec &s, const ColoquinteParamet
     out.discardWhy = "legalization returned an illegal placement (C01)";
     return out;
   }
-  Circuit c = s.build();
+  Circuit c = prepared ? *prepared : s.build();
   std::vector<int> macros = macroCells(cl);
   Frame first;
   bool haveFirst = false;
